@@ -1,6 +1,20 @@
 package h
 
-import "time"
+import (
+	"syscall"
+	"time"
+)
 
 // realNow is the wall clock; it must only be called outside a synctest bubble.
 func realNow() int64 { return time.Now().UnixNano() }
+
+// CPUNow is the CPU time (user + system, nanoseconds) this process has consumed so far. The stall
+// watchdog measures an execution by it rather than by the wall clock: a spinning execution burns CPU,
+// a machine that is frozen or badly overloaded does not.
+func CPUNow() int64 {
+	var ru syscall.Rusage
+	if err := syscall.Getrusage(syscall.RUSAGE_SELF, &ru); err != nil {
+		return 0
+	}
+	return ru.Utime.Nano() + ru.Stime.Nano()
+}
